@@ -212,7 +212,20 @@ class C14(object):
                     spf = sf.sparse_frame(r[p].astype(np.uint16), c[p].astype(np.uint16), (ns, nf),
                                           pixels={"intensity": vals[p].copy(), "tag": extra[p].copy()})
                     try:
-                        if rnd.random() < 0.7:
+                        seq = rnd.random() < 0.4
+                        if seq:
+                            # sort, put it into another order in place, sort again: the order must be re-established
+                            spf.sort()
+                            if rnd.random() < 0.5:
+                                spf.sort_by("tag")
+                            else:
+                                spf.reorder(g.permutation(len(r)))
+                            spf.sort()
+                            viol = check_sorted(spf, "sort() after sort(), reorder, ")
+                            if viol is None and ((spf.row != r).any() or (spf.col != c).any() or
+                                                 (spf.pixels["intensity"] != vals).any() or (spf.pixels["tag"] != extra).any()):
+                                viol = V("sort-detaches-values", "sort() after reorder: triples were not kept together")
+                        elif rnd.random() < 0.7:
                             spf.sort()
                             viol = check_sorted(spf, "sort()")
                             if viol is None and ((spf.row != r).any() or (spf.col != c).any() or
